@@ -23,6 +23,7 @@ impl<T> std::panic::UnwindSafe for OnceCell<T> {}
 struct Reset<'a, T>(&'a OnceCell<T>);
 impl<T> Drop for Reset<'_, T> {
     fn drop(&mut self) {
+        let _rt = crate::RtGuard::new();
         // initialiser failed or panicked
         match enter() {
             Mode::Outside | Mode::Ending => self.0.st.set(St::Empty),
@@ -51,6 +52,7 @@ impl<T> OnceCell<T> {
     }
     /// Never blocks.
     pub fn get(&self) -> Option<&T> {
+        let _rt = crate::RtGuard::new();
         yield_point("once.get");
         if self.is_done() {
             unsafe { (*self.val.get()).as_ref() }
